@@ -78,6 +78,9 @@ func runC16Prims(c *Ctx) {
 		if k%2 == 0 {
 			c.c16primMesh()
 		}
+		if k%2 == 1 {
+			c.c16primTree()
+		}
 	}
 }
 
@@ -293,5 +296,90 @@ func (c *Ctx) c16primTri() {
 	c.Emit("c16.prim.tri", args, c16box(*box)+" "+c16hitEnc(hit, rec))
 	if hit {
 		c.Emit("c16.holds.prim_in_box", "tri "+c16box(*box)+" "+c16v(rec.Point), "true")
+	}
+}
+
+// rendering.Tree (NewBVH: an octree, automatic depth, over the items' boxes) — Tree.Hit against the model's treeHit on the
+// model octree of the same boxes, and against HitList.Hit.
+//   c16.tree.hit <n> (s cs ce ct r | r blx bly trx try depth)… o d time mn mx -> true dist | false
+func (c *Ctx) c16primTree() {
+	n := 1 + c.Rng.Intn(9)
+	t0, t1 := c.c16interval()
+	type item struct {
+		an   *c16anim
+		bl   [2]float64
+		tr   [2]float64
+		dep  float64
+		rect bool
+	}
+	items := make([]item, n)
+	list := make(rendering.HitList, n)
+	for i := range items {
+		if c.Rng.Intn(4) == 0 {
+			p, q := c.c16pv(15), c.c16pv(15)
+			it := item{rect: true, dep: p.Z()}
+			it.bl = [2]float64{math.Min(p.X(), q.X()), math.Min(p.Y(), q.Y())}
+			it.tr = [2]float64{math.Max(p.X(), q.X()), math.Max(p.Y(), q.Y())}
+			items[i] = it
+			list[i] = rendering.NewXYRectangle(vector2.New(it.bl[0], it.bl[1]), vector2.New(it.tr[0], it.tr[1]), it.dep, nil)
+		} else {
+			an := c.c16newAnim(c.Rng.Intn(2) == 0)
+			items[i] = item{an: &an}
+			list[i] = an.sp
+		}
+	}
+	tree := rendering.NewBVH(append([]rendering.Hittable(nil), list...), t0, t1)
+	for q := 0; q < 3; q++ {
+		time := t0 + (t1-t0)*c.Rng.Float64()
+		ti := c.Rng.Intn(n)
+		var target v3
+		if items[ti].rect {
+			it := items[ti]
+			target = vector3.New(it.bl[0]+(it.tr[0]-it.bl[0])*c.Rng.Float64(), it.bl[1]+(it.tr[1]-it.bl[1])*c.Rng.Float64(), it.dep)
+		} else {
+			off := vector3.New(c.Rng.NormFloat64(), c.Rng.NormFloat64(), c.Rng.NormFloat64())
+			if off.Length() < 1e-9 {
+				continue
+			}
+			target = items[ti].an.at(time).Add(off.Normalized().Scale(items[ti].an.r * c.Rng.Float64() * 1.2))
+		}
+		o, d, ok := c.c16aim(target, 40)
+		if !ok {
+			continue
+		}
+		ray := rendering.NewTemporalRay(o, d, time)
+		bad := false
+		for _, it := range items {
+			if it.rect && ray.Direction().Z() == 0 && ray.Origin().Z() == it.dep {
+				bad = true // 0/0 in XYRectangle.Hit: NaN payloads are not compared
+			}
+		}
+		if bad {
+			continue
+		}
+		mn, mx := 0., 1e6
+		if c.Rng.Intn(3) == 0 {
+			mn, mx = c.c16range(target.Distance(ray.Origin()))
+		}
+		parts := make([]string, n)
+		for i, it := range items {
+			if it.rect {
+				parts[i] = "r " + Fs(it.bl[0], it.bl[1], it.tr[0], it.tr[1], it.dep)
+			} else {
+				parts[i] = "s " + c16v(it.an.at(t0)) + " " + c16v(it.an.at(t1)) + " " + c16v(it.an.at(time)) + " " + F(it.an.r)
+			}
+		}
+		recT, recL := rendering.NewHitRecord(), rendering.NewHitRecord()
+		hitT := tree.Hit(&ray, mn, mx, recT)
+		hitL := list.Hit(&ray, mn, mx, recL)
+		if hitT {
+			c.Note("prims.tree.hit")
+		} else {
+			c.Note("prims.tree.miss")
+		}
+		c.Emit("c16.tree.hit", fmt.Sprint(n)+" "+strings.Join(parts, " ")+" "+c16rayEnc(&ray, time, mn, mx), c16hitEncD(hitT, recT))
+		if mn < mx {
+			c.Emit("c16.holds.bvh", "octtree-prims "+B(hitT)+" "+F(recT.Distance)+" "+B(hitL)+" "+F(recL.Distance), "true")
+		}
 	}
 }
